@@ -300,7 +300,19 @@ def check_symbolic(run, B, tag, ast, n, rng, expr=None, deep=True):
         M = np.asarray(h.matrix)
         A = ast_coq(ast)
         T = tree_coq(h.form)
-        orc = oracle_monomials(h.form)
+        try:
+            orc = oracle_monomials(h.form)
+        except Unsupported as e:
+            # nested powers of a symbol such as (Y0**3)**2: SymbolicTerm.__init__ asserts; the dense route works
+            try:
+                h.terms
+                run.find(f"oracle:{desc['form']}", f"harness cannot read sympy's monomials ({e}) but h.terms succeeded", desc, concrete=False)
+            except AssertionError:
+                run.notes.setdefault("terms_refused_by_implementation", []).append({**desc, "sympy_form": str(h.form), "why": str(e)})
+            run.case(["symbolic-dense-only", desc["form"], n])
+            B.add(f"{tag}:matrix_spec", f"meqb (denote {n}%nat {A}) {cmat(M)}", {**desc, "what": "h.matrix vs [[form]]"})
+            B.add(f"{tag}:matrix_model", f"omeqb (dense {n}%nat {T}) {cmat(M)}", {**desc, "what": "h.matrix vs model of _get_symbol_matrix"})
+            return None
         its, const = impl_terms_coq(h)
         multi = has_same_qubit_factors(h)
         desc["sympy_form"] = str(h.form)
@@ -518,10 +530,12 @@ def rand_zform(rng, n, repeats):
         qs = rng.sample(range(n), k)
         if repeats and rng.random() < 0.6:
             qs = qs + [rng.choice(qs)]
-            if rng.random() < 0.5:
+            if rng.random() < 0.3 or len(qs) < 3:
                 rng.shuffle(qs)
-            else:
-                qs = [qs[-1]] + qs[:-1]
+            else:       # the repeated qubit first and last: sympy cannot merge the two factors
+                r = qs[-1]
+                rest = [q for q in qs[:-1] if q != r]
+                qs = [r] + rest + [r]
         f = ("N", rng.choice([-3, -2, -1, 1, 2, 3]), 0)
         for q in qs:
             f = ("M", f, ("S", "Z", q))
@@ -555,7 +569,9 @@ def run_samples(run, rng):
     from qibo.hamiltonians import SymbolicHamiltonian, Hamiltonian
     B = Batch(run, "C15_samples")
     count = 40 if run.tier == "quick" else 400
-    fixed = [(2, ("M", ("M", ("S", "Z", 0), ("S", "Z", 1)), ("S", "Z", 0)), {"00": 2, "10": 6}, [0, 1])]
+    fixed = [(2, ("M", ("M", ("S", "Z", 0), ("S", "Z", 1)), ("S", "Z", 0)), {"00": 2, "10": 6}, [0, 1]),
+             (3, ("S", "Z", 0), {"0": 2, "1": 6}, [0]),
+             (3, ("M", ("S", "Z", 0), ("S", "Z", 1)), {"01": 2, "11": 6}, [1, 0])]
     for k in range(count + len(fixed)):
         if k < len(fixed):
             n, ast, fr, qmap = fixed[k]
@@ -569,9 +585,12 @@ def run_samples(run, rng):
             if style < 0.5:
                 qmap = list(range(n))
                 rng.shuffle(qmap)
-            elif style < 0.85:
+            elif style < 0.7:
                 extra = [q for q in range(n) if q not in need and rng.random() < 0.5]
                 qmap = need + extra
+                rng.shuffle(qmap)
+            elif style < 0.85:       # a proper prefix of the register (accepted by the dense route)
+                qmap = list(range(max(need) + 1))
                 rng.shuffle(qmap)
             else:
                 qmap = None
